@@ -107,8 +107,8 @@ def run(ck, rng):
             # the read fails before the first root is complete: an over-long first row (the scanner's limit)
             doc = rng.choice([b"- ", b"", b"  "]) + b"x" * rng.choice([65536, 70000]) + b"\n" + doc
         stdout_mode = rng.choice(["pipe", "pipe", "pipe", "full", "closed", "broken"])
-        via_file = rng.choice([None, None, "in.md", "-", "missing.md"] + (["adir", "/dev/stdin", "/dev/null"] if kind != "usage" else []))
-        if via_file == "/dev/null":
+        via_file = rng.choice([None, None, "in.md", "-", "missing.md"] + (["adir", "/dev/stdin", "/dev/null", "<devnull"] if kind != "usage" else []))
+        if via_file in ("/dev/null", "<devnull"):      # "<devnull": no --file, and the standard input IS /dev/null (cron, nohup, os/exec)
             doc = b""           # --file names a special file: whatever can be opened and read is read
         args, pre, lib, expect_usage_err, expect_open_err = [], [], None, False, False
         mfmt, mdry, mexts, mtarget, mstrict = "-", "0", [], b"", "0"
@@ -173,7 +173,9 @@ def run(ck, rng):
             expect_usage_err = True
             if args == ["nosuchcommand"]:
                 continue   # urfave/cli prints help for an unknown command name; not part of the claim
-        if via_file is not None and kind != "usage":
+        if via_file == "<devnull":
+            stdin = None
+        elif via_file is not None and kind != "usage":
             args += [rng.choice(["--file", "-f"]), via_file]
             if via_file in ("in.md", "/dev/null"):
                 stdin = b""
@@ -301,6 +303,8 @@ def run_cli_doc(cli, args, stdin, stdout_mode, pre, doc, via_file):
     if via_file == "in.md":
         open(os.path.join(jail, "in.md"), "wb").write(doc)
     before = snap_dir(jail)
+    # stdin None: the standard input is /dev/null itself (a character device), not a pipe
+    stdin_kw = {"stdin": subprocess.DEVNULL} if stdin is None else {"input": stdin}
     so = subprocess.PIPE if stdout_mode == "pipe" else (open("/dev/full", "wb") if stdout_mode == "full" else None)
     if stdout_mode == "broken":
         # a pipe whose reading end is already closed: every write fails with EPIPE (or the process is killed by SIGPIPE)
@@ -309,10 +313,10 @@ def run_cli_doc(cli, args, stdin, stdout_mode, pre, doc, via_file):
         so = os.fdopen(wfd, "wb")
     try:
         if stdout_mode == "closed":
-            p = subprocess.run(["/bin/sh", "-c", 'exec "$0" "$@" >&-', cli] + args, input=stdin, stderr=subprocess.PIPE,
-                               cwd=jail, timeout=20)
+            p = subprocess.run(["/bin/sh", "-c", 'exec "$0" "$@" >&-', cli] + args, stderr=subprocess.PIPE,
+                               cwd=jail, timeout=20, **stdin_kw)
         else:
-            p = subprocess.run([cli] + args, input=stdin, stdout=so, stderr=subprocess.PIPE, cwd=jail, timeout=20)
+            p = subprocess.run([cli] + args, stdout=so, stderr=subprocess.PIPE, cwd=jail, timeout=20, **stdin_kw)
         rc, out, err = p.returncode, (p.stdout or b""), p.stderr
     except subprocess.TimeoutExpired:
         rc, out, err = -999, b"", b"timeout"
